@@ -221,7 +221,7 @@ func (r Result) AsSlice() ([]any, bool) {
 	// Try to convert using ToSlice
 	result := ToSlice(r.value)
 	// ToSlice wraps non-slice values, so check if it's actually a slice
-	if len(result) == 1 && result[0] == r.value {
+	if reflect.ValueOf(r.value).Kind() != reflect.Slice {
 		// ToSlice wrapped a non-slice value
 		return nil, false
 	}
